@@ -164,6 +164,14 @@ type Pather struct {
 	// unroll a constant-trip-count loop or split on a finite case set it (and call
 	// ResetMemo) per iteration/case; it is nil otherwise.
 	Bind map[ssa.Value]ssa.Value
+	// ParamNames, when set, renders parameter i as ParamNames[i]: the rendering context
+	// of a helper the path walker has descended into (its parameters are the caller's
+	// argument expressions).
+	ParamNames []string
+	// InlineCalls asks the path walker (EventPaths*) to descend into a statically
+	// resolved call instead of treating it as one event: the helper's events and
+	// branches become part of the caller's paths (depth <= 2, no recursion).
+	InlineCalls func(*ssa.Call) bool
 }
 
 // Fn is the function whose values the Pather renders.
@@ -519,6 +527,9 @@ func (p *Pather) path(v ssa.Value) string {
 	case *ssa.Parameter:
 		for i, q := range p.fn.Params {
 			if q == x {
+				if p.ParamNames != nil && i < len(p.ParamNames) {
+					return p.ParamNames[i]
+				}
 				return fmt.Sprintf("p%d", i)
 			}
 		}
@@ -941,8 +952,6 @@ func eventPaths(fn *ssa.Function, p *Pather, ev func(ssa.Instruction) string, br
 		p.Bind = map[ssa.Value]ssa.Value{}
 		defer func() { p.Bind = nil }()
 	}
-	var from *ssa.BasicBlock
-	decided := map[string]int{}
 	if p != nil {
 		p.Loads = map[*ssa.UnOp]string{}
 		defer func() { p.Loads = nil; p.ResetMemo() }()
@@ -950,22 +959,50 @@ func eventPaths(fn *ssa.Function, p *Pather, ev func(ssa.Instruction) string, br
 	if len(fn.Blocks) == 0 {
 		return nil, true
 	}
+	decided := map[string]int{}
 	seen := map[string]bool{}
 	count := 0
 	visits := map[*ssa.BasicBlock]int{}
 	var cur []string
-	var walk func(b *ssa.BasicBlock) bool
-	walk = func(b *ssa.BasicBlock) bool {
-		if visits[b] >= loopVisits {
-			return true
+	// frames of helpers the walk has descended into (Pather.InlineCalls): where to go on
+	// in the caller when the helper returns, and the caller's rendering context
+	type frame struct {
+		retBlock *ssa.BasicBlock
+		retIdx   int
+		from     *ssa.BasicBlock
+		saved    Pather
+		callee   *ssa.Function
+	}
+	var frames []frame
+	var from *ssa.BasicBlock
+	record := func() bool {
+		count++
+		if count > cap {
+			return false
 		}
-		visits[b]++
+		k := strings.Join(cur, "\x00")
+		if !seen[k] {
+			seen[k] = true
+			paths = append(paths, append([]string(nil), cur...))
+		}
+		return true
+	}
+	var walkAt func(b *ssa.BasicBlock, start int) bool
+	walkAt = func(b *ssa.BasicBlock, start int) bool {
+		if start == 0 {
+			if visits[b] >= loopVisits {
+				return true
+			}
+			visits[b]++
+			defer func() { visits[b]-- }()
+		}
 		n0 := len(cur)
+		defer func() { cur = cur[:n0] }()
 		exit := false
 		// bind the phis of this block to the edge taken
 		var boundPhis []*ssa.Phi
 		var prevBind []ssa.Value
-		if resolve && p != nil && from != nil {
+		if start == 0 && resolve && p != nil && from != nil {
 			idx := -1
 			for i, pr := range b.Preds {
 				if pr == from {
@@ -1025,7 +1062,8 @@ func eventPaths(fn *ssa.Function, p *Pather, ev func(ssa.Instruction) string, br
 				p.ResetMemo()
 			}
 		}()
-		for _, in := range b.Instrs {
+		for idx := start; idx < len(b.Instrs); idx++ {
+			in := b.Instrs[idx]
 			if p != nil {
 				switch x := in.(type) {
 				case *ssa.UnOp:
@@ -1042,7 +1080,40 @@ func eventPaths(fn *ssa.Function, p *Pather, ev func(ssa.Instruction) string, br
 					}
 				}
 			}
-			if e := ev(in); e == StopEvent {
+			// descend into a helper the rule asked to see through
+			if call, isCall := in.(*ssa.Call); isCall && p != nil && p.InlineCalls != nil && len(frames) < 2 {
+				callee := call.Call.StaticCallee()
+				onStack := callee == fn
+				for _, f := range frames {
+					if f.callee == callee {
+						onStack = true
+					}
+				}
+				if callee != nil && len(callee.Blocks) > 0 && !onStack && p.InlineCalls(call) {
+					var args []string
+					for _, a := range call.Call.Args {
+						args = append(args, p.Path(a))
+					}
+					cp := NewPather(callee)
+					cp.ParamNames = args
+					cp.Loads, cp.Bind = p.Loads, p.Bind
+					cp.KeepConv, cp.Inline, cp.DistinctCalls, cp.InlineCalls = p.KeepConv, p.Inline, p.DistinctCalls, p.InlineCalls
+					frames = append(frames, frame{retBlock: b, retIdx: idx + 1, from: from, saved: *p, callee: callee})
+					*p = *cp
+					from = nil
+					okc := walkAt(callee.Blocks[0], 0)
+					fr := frames[len(frames)-1]
+					frames = frames[:len(frames)-1]
+					*p = fr.saved
+					from = fr.from
+					p.ResetMemo()
+					return okc // the rest of this block was walked as the helper's continuation
+				}
+			}
+			_, isRet := in.(*ssa.Return)
+			if isRet && len(frames) > 0 {
+				// the helper's own return is not an event of the function under analysis
+			} else if e := ev(in); e == StopEvent {
 				exit = true
 				break
 			} else if e != "" {
@@ -1050,6 +1121,21 @@ func eventPaths(fn *ssa.Function, p *Pather, ev func(ssa.Instruction) string, br
 			}
 			switch in.(type) {
 			case *ssa.Return:
+				if len(frames) > 0 {
+					// the helper returns: go on in the caller, in the caller's context
+					fr := frames[len(frames)-1]
+					frames = frames[:len(frames)-1]
+					calleeState, calleeFrom := *p, from
+					*p = fr.saved
+					from = fr.from
+					p.ResetMemo()
+					okc := walkAt(fr.retBlock, fr.retIdx)
+					*p = calleeState
+					from = calleeFrom
+					p.ResetMemo()
+					frames = append(frames, fr)
+					return okc
+				}
 				exit = true
 			case *ssa.Panic:
 				exit = true
@@ -1057,98 +1143,88 @@ func eventPaths(fn *ssa.Function, p *Pather, ev func(ssa.Instruction) string, br
 			}
 		}
 		if exit || len(b.Succs) == 0 {
-			count++
-			if count > cap {
-				return false
-			}
-			k := strings.Join(cur, "\x00")
-			if !seen[k] {
-				seen[k] = true
-				paths = append(paths, append([]string(nil), cur...))
-			}
-		} else {
-			brName := ""
-			if br != nil && len(b.Succs) == 2 {
-				if iff, isIf := b.Instrs[len(b.Instrs)-1].(*ssa.If); isIf {
-					brName = br(iff.Cond)
-				}
-			}
-			// a condition that folds to a constant under the current binding has one feasible side
-			feasible := -1
-			if resolve && p != nil && len(b.Succs) == 2 {
-				if iff, isIf := b.Instrs[len(b.Instrs)-1].(*ssa.If); isIf {
-					if bo, isBin := p.Deref(iff.Cond).(*ssa.BinOp); isBin {
-						x, okX := p.Const(bo.X)
-						y, okY := p.Const(bo.Y)
-						if okX && okY {
-							var t bool
-							known := true
-							switch bo.Op {
-							case token.EQL:
-								t = x == y
-							case token.NEQ:
-								t = x != y
-							case token.LSS:
-								t = x < y
-							case token.LEQ:
-								t = x <= y
-							case token.GTR:
-								t = x > y
-							case token.GEQ:
-								t = x >= y
-							default:
-								known = false
-							}
-							if known {
-								feasible = 1
-								if t {
-									feasible = 0
-								}
-							}
-						}
-					}
-				}
-			}
-			// a condition over parameters and constants only that was already decided on this
-			// path keeps its outcome
-			stable := resolve && brName != "" && !strings.Contains(brName, "call:") && !strings.Contains(brName, "local:") && !strings.Contains(brName, "iv")
-			for si, s := range b.Succs {
-				if feasible >= 0 && si != feasible {
-					continue
-				}
-				setHere := false
-				if stable {
-					if prev, seenBefore := decided[brName]; seenBefore {
-						if prev != si {
-							continue
-						}
-					} else {
-						decided[brName] = si
-						setHere = true
-					}
-				}
-				from = b
-				n1 := len(cur)
-				if brName != "" {
-					if si == 0 {
-						cur = append(cur, brName+"=T")
-					} else {
-						cur = append(cur, brName+"=F")
-					}
-				}
-				if !walk(s) {
-					return false
-				}
-				if setHere {
-					delete(decided, brName)
-				}
-				cur = cur[:n1]
+			return record()
+		}
+		brName := ""
+		if br != nil && len(b.Succs) == 2 {
+			if iff, isIf := b.Instrs[len(b.Instrs)-1].(*ssa.If); isIf {
+				brName = br(iff.Cond)
 			}
 		}
-		cur = cur[:n0]
-		visits[b]--
+		// a condition that folds to a constant under the current binding has one feasible side
+		feasible := -1
+		if resolve && p != nil && len(b.Succs) == 2 {
+			if iff, isIf := b.Instrs[len(b.Instrs)-1].(*ssa.If); isIf {
+				if bo, isBin := p.Deref(iff.Cond).(*ssa.BinOp); isBin {
+					x, okX := p.Const(bo.X)
+					y, okY := p.Const(bo.Y)
+					if okX && okY {
+						var t bool
+						known := true
+						switch bo.Op {
+						case token.EQL:
+							t = x == y
+						case token.NEQ:
+							t = x != y
+						case token.LSS:
+							t = x < y
+						case token.LEQ:
+							t = x <= y
+						case token.GTR:
+							t = x > y
+						case token.GEQ:
+							t = x >= y
+						default:
+							known = false
+						}
+						if known {
+							feasible = 1
+							if t {
+								feasible = 0
+							}
+						}
+					}
+				}
+			}
+		}
+		// a condition over parameters and constants only that was already decided on this
+		// path keeps its outcome
+		stable := resolve && brName != "" && !strings.Contains(brName, "call:") && !strings.Contains(brName, "local:") && !strings.Contains(brName, "iv")
+		for si, s := range b.Succs {
+			if feasible >= 0 && si != feasible {
+				continue
+			}
+			setHere := false
+			if stable {
+				if prev, seenBefore := decided[brName]; seenBefore {
+					if prev != si {
+						continue
+					}
+				} else {
+					decided[brName] = si
+					setHere = true
+				}
+			}
+			from = b
+			n1 := len(cur)
+			if brName != "" {
+				if si == 0 {
+					cur = append(cur, brName+"=T")
+				} else {
+					cur = append(cur, brName+"=F")
+				}
+			}
+			okw := walkAt(s, 0)
+			if setHere {
+				delete(decided, brName)
+			}
+			if !okw {
+				return false
+			}
+			cur = cur[:n1]
+		}
 		return true
 	}
-	ok = walk(fn.Blocks[0])
+	ok = walkAt(fn.Blocks[0], 0)
 	return paths, ok
 }
